@@ -64,6 +64,7 @@ type Unit struct {
 	preludeBlocks []string
 	exec     *Exec
 	contract *Contract
+	nameCount map[string]int
 }
 
 func newUnit(eng *Engine, name string) *Unit {
@@ -416,6 +417,13 @@ func (u *Unit) mapKeys(m *types.Map) (dom, val, ks, vs string) {
 // ---------- obligations ----------
 
 func (u *Unit) oblige(name, kind, clause, where, pc, goal string) *Obligation {
+	if u.nameCount == nil {
+		u.nameCount = map[string]int{}
+	}
+	u.nameCount[name]++
+	if c := u.nameCount[name]; c > 1 && kind != "vacuity" {
+		name = fmt.Sprintf("%s@%d", name, c)
+	}
 	o := &Obligation{Name: u.Name + ":" + name, Kind: kind, Unit: u.Name, Clause: clause, Where: where,
 		nDecl: len(u.decls), nFact: len(u.facts), PC: pc, Goal: goal, unit: u}
 	// merge duplicates by name: conjunction is handled by keeping separate sub-obligations with #k suffix internally
